@@ -389,7 +389,39 @@ func sameParse(a, b string) (bool, string) {
 	return true, ""
 }
 
+// consistent: the token list joined by single spaces tokenizes back to itself, i.e. every
+// boundary of the list is a real token boundary (a mutant or a shrinking step can put a
+// boundary inside the text of a string literal, where white space is content, not a gap)
+func consistent(toks []string) bool {
+	ps, ok := tokenize(strings.Join(toks, " "))
+	if !ok {
+		return false
+	}
+	back := tokensOf(ps)
+	if len(back) != len(toks) {
+		return false
+	}
+	for i := range back {
+		if back[i] != toks[i] {
+			return false
+		}
+	}
+	return true
+}
+
 func (c *checker) respace(o *common.Oracle, toks []string, orig string, origin string) {
+	if !consistent(toks) {
+		ps, ok := tokenize(strings.Join(toks, " "))
+		if !ok {
+			o.Distribution["skipped:not-tokenizable"]++
+			return
+		}
+		toks = tokensOf(ps)
+		if !consistent(toks) {
+			o.Distribution["skipped:not-tokenizable"]++
+			return
+		}
+	}
 	base := strings.Join(toks, " ")
 	if orig != "" {
 		o.Cases++
@@ -408,6 +440,9 @@ func (c *checker) respace(o *common.Oracle, toks []string, orig string, origin s
 			continue
 		}
 		m := shrink(toks, func(t []string) bool {
+			if !consistent(t) {
+				return false
+			}
 			ok, _ := sameParse(strings.Join(t, " "), respaced(common.NewRand(seed), t, sc))
 			return !ok
 		})
